@@ -482,6 +482,8 @@ pub fn gen_sink(rng: &mut Rng, allow_eintr: bool) -> SinkSpec {
         eintr_calls: if allow_eintr { gen_eintr(rng, 2000) } else { vec![] },
         enospc_after: None,
         flush_error: false,
+        // only matters where a property fills the sink up
+        full_zero: rng.chance(1, 3),
     }
 }
 
